@@ -1,5 +1,6 @@
 import Driver.Util
 import ImmuModel.Index.Indexer
+import ImmuModel.Index.Compaction
 /-!
 Driver for C04.  One model store per driver process (`c04 new` resets it): declared indexes, the
 committed log, and one multi-version tree per index.  `c04 index owned <B> [cap]` runs the model of the
@@ -7,6 +8,11 @@ indexer loop over the not yet indexed transactions in bulks of `sp.maxBulk B` (o
 index, `B` otherwise — what `indexSince` gathers from a backlog).  `c04 quirks <a> <b>` is the harness telling
 which variant of the injective branch its start-of-run probes observed: the model has the repaired code only
 (`0 0`); any other variant, and `index aliased`, is answered `unsupported-variant` (a mismatch).
+`c04 compact <i> <s>`: index `i` was compacted while the indexer went on — `CompactIndex` restarted it from the
+dump of the snapshot root at ts `s`.  The model rebuilds that dump (the content of the index as of `s`: every
+index re-indexed from scratch over the transactions `≤ s`, one per bulk — `bulk_partition_independent`), applies
+`compactRestart` and answers with the ts the dump claims (`dumpTsFile`); the next `c04 index` re-indexes what the
+restarted tree lacks.
 -/
 namespace Driver.C04
 open ImmuModel ImmuModel.Index.L
@@ -100,6 +106,11 @@ def runAll (B : Nat) (cap : Option Nat) (s : St) : Except (Nat × IdxErr) St :=
       | .error x => .error (i, x)
       | .ok s' => .ok s') (.ok s)
 
+/-- all indexes as of transaction `upto`: indexed from scratch, one transaction per bulk -/
+def stateAt (s : St) (upto : Nat) : Except (Nat × IdxErr) St :=
+  runAll 1 none { idxs := s.idxs.map (fun d => { d with tr := {} }),
+                  logRev := s.logRev.filter (fun tx => decide (tx.id ≤ upto)) }
+
 def parseBool (s : String) : Option Bool :=
   if s == "1" then some true else if s == "0" then some false else none
 
@@ -145,6 +156,23 @@ def step (s : St) : List String → St × String
       else match runAll b (some cap) s with
         | .error (i, x) => (s, s!"{fmtIdxErr x}@{i}")
         | .ok s' => (s', "ok " ++ fmtList (s'.idxs.toList.map fun d => toString d.tr.ts))
+    | _, _ => (s, "bad-op")
+  | ["compact", i, ts] =>
+    match i.toNat?, ts.toNat? with
+    | some i, some ts =>
+      match s.idxs[i]? with
+      | none => (s, "bad-op")
+      | some d =>
+        match stateAt s ts with
+        | .error (j, x) => (s, s!"{fmtIdxErr x}@{j}")
+        | .ok s1 =>
+          match s1.idxs[i]? with
+          | none => (s, "bad-op")
+          | some dd =>
+            if dd.tr.ts ≠ ts then (s, s!"err:no-snapshot-at-ts {dd.tr.ts}")
+            else
+              ({ s with idxs := s.idxs.set! i { d with tr := compactRestart dd.tr d.tr.ts } },
+                s!"ok {dumpTsFile dd.tr.ts d.tr.ts}")
     | _, _ => (s, "bad-op")
   | ["get", i, now, k] =>
     (s, withIdx s i fun d => match now.toNat?, Bytes.ofHex k with
